@@ -242,7 +242,7 @@ func Run(sc *e1.Scenario) Outcome {
 			case k == at.FailAt:
 				res = e1.HandlerError(at.FailWith)
 			}
-			if at.HandlerMode == "scribble" && res == nil {
+			if at.HandlerMode == "scribble" {
 				hx.Wipe(tx)
 			}
 			if res == nil {
